@@ -241,6 +241,24 @@ def rule_D(toks, au):
     return toks
 
 
+def rule_D_attrs(toks, au, names):
+    """drop outer attributes  #[NAME ...]  for NAME in names (thiserror / serde display attributes: no run-time meaning
+    for the variant set)"""
+    out, i, n = [], 0, len(toks)
+    while i < n:
+        t = toks[i]
+        if is_p(t, "#") and i + 2 < n and is_p(toks[i + 1], "[") and toks[i + 2].kind == "id" and toks[i + 2].text in names:
+            k = match_close(toks, i + 1)
+            au.note("D", "attribute " + render(toks[i:k + 1]))
+            if k + 1 < n:
+                toks[k + 1].ws = t.ws + toks[k + 1].ws if not toks[k + 1].ws.strip() else toks[k + 1].ws
+            i = k + 1
+            continue
+        out.append(t)
+        i += 1
+    return out
+
+
 def rule_D_calls(toks, au, names):
     """drop statements of the form  NAME.method(...);  /  NAME(...);  for receiver names listed in the recipe
     (tracing spans, metrics) -- whitelist is part of the recipe and recorded in the audit"""
@@ -304,6 +322,14 @@ def rule_R(toks, au, opts=None):
                 break
             au.note("R", "".join(pat) + " -> " + rep)
             toks[i:i + len(pat)] = [Tok("id", rep, toks[i].ws)]
+    # std::io::X -> io::X  (the shim module `io`)
+    while True:
+        i = find_seq(toks, ["std", ":", ":", "io", ":", ":"])
+        if i < 0:
+            break
+        au.note("R", "std::io:: -> io:: (shim module)")
+        toks[i + 3].ws = toks[i].ws
+        del toks[i:i + 3]
     out, i = [], 0
     n = len(toks)
     while i < n:
